@@ -112,7 +112,8 @@ class Operator:
             )
             return
 
-        for pddl_object in self.problem_objects.values():
+        # the domain's constants are objects of every problem.
+        for pddl_object in {**self.problem_objects, **self.domain.constants}.values():
             self.logger.debug(
                 f"Trying to apply the action's universal effects on the object: {pddl_object.name}"
             )
